@@ -73,7 +73,7 @@ def wrap(ctx, owner, attr, name, post, applicable=None, snapshot=None):
 
 def original(f):
     f = getattr(f, "__func__", f)
-    while hasattr(f, "__vmon_original__") or hasattr(f, "__wrapped__"):
+    while (hasattr(f, "__vmon_original__") or hasattr(f, "__wrapped__")) and not hasattr(f, "py_func"):
         f = getattr(f, "__vmon_original__", None) or f.__wrapped__
         f = getattr(f, "__func__", f)
     return f
